@@ -82,6 +82,16 @@ FLOORS = {"quick": {"evaluations": 2500, "distinct_nontrivial": 1050,
 # quick floor x (thorough / quick stream size) x 0.6.  A run in which the facet never executed is INCONCLUSIVE.
 FLOORS["quick"]["counters"].update({"siblings_built": 2300, "siblings_computed_together": 345, "siblings_with_different_values": 310})
 FLOORS["thorough"]["counters"].update({"siblings_built": 25000, "siblings_computed_together": 3700, "siblings_with_different_values": 3300})
+# parameter audit: input classes (~45 % of the smallest count of the five quick seeds; thorough = quick floor x 20 (stream ratio) x 0.6)
+_AUDIT = {"arange_keyword_form": 34, "arange_mixed_int_float": 28, "arange_negative_step": 57, "args_numpy_scalars": 75,
+          "chunks_bytes": 163, "chunks_dict": 121, "diagonal_numpy_input": 29, "layout_block_over_255": 29,
+          "layout_irregular_ge3_blocks": 140, "like_argument": 79, "like_input_dask-nan": 26, "like_input_list": 21,
+          "like_shape_int": 12, "meshgrid_2d_or_scalar_input": 45, "negative_k": 177, "wrap_meta_argument": 56,
+          "wrap_shape_form_kw": 24, "wrap_shape_form_ndarray": 28, "wrap_shape_form_npint": 25}
+FLOORS["quick"]["counters"].update(_AUDIT)
+FLOORS["thorough"]["counters"].update({k: int(v * 20 * 0.6) for k, v in _AUDIT.items()})
+FLOORS["quick"]["sets"].update({"chunk_spec_kinds": 45, "irregular3_ops": 11})
+FLOORS["thorough"]["sets"].update({"chunk_spec_kinds": 50, "irregular3_ops": 12})
 EXHAUSTIVE_SPACE = ("arange(n), n<=6 x all explicit chunkings and int chunk sizes 1..n+1; eye(n), n<=6 x k in {-1,0,1} x int "
                     "chunk sizes 1..n+1; tri(n), n<=5 x all pairs of explicit chunkings and int chunk sizes 1..n+1")
 CLAIM = ("Every generated creation call was executed by the real dask.array and compared with the NumPy routine on the "
@@ -91,6 +101,9 @@ CLAIM = ("Every generated creation call was executed by the real dask.array and 
 LEVEL_NOTE = "NumPy is the reference; chunk specifications limited to the forms each routine documents"
 TECHNIQUE = "runtime monitoring: NumPy differential oracle over generated creation calls and complete small chunking spaces"
 PENDING = {
+    # parameter audit (fix patch /verif/fixes_ready/C34_01_linspace_default_dtype_follows_arguments.patch)
+    "linspace:float32-scalar-arg&dtype=None:dtype":
+        "da.linspace(np.float32(0), np.float32(1), n) returns float64, np.linspace float32: the default dtype ignores start/stop",
     "eye:M>N&chunk>N:blocks-inconsistent-with-chunks":
         "da.eye(N, chunks=c, M=M) with M > N and c > N (or 'auto'/-1): the clipped row chunk size N is reused as the column "
         "chunk size, the graph lacks blocks / holds blocks of the wrong shape ('Missing dependency', wrong values)",
@@ -242,7 +255,7 @@ def cases(tier, seed):
                 # NumPy scalars as start / stop (their type takes part in NumPy's result dtype)
                 d["argt"] = [rng.choice(_NPT_FLOAT if isinstance(d[k], float) else _NPT_INT + _NPT_FLOAT) if rng.random() < 0.8 else None
                              for k in ("start", "stop")]
-            if rng.random() < 0.02:
+            if rng.random() < 0.035:
                 # a long axis: blocks of more than 255 elements, >= 3 irregular blocks
                 num = rng.randint(300, 900)
                 d.update({"num": num, "chunks": _spec_long(rng, num)})
@@ -251,7 +264,7 @@ def cases(tier, seed):
             M = rng.choice((None, None, N, rng.randint(0, 8), rng.randint(0, 8), rng.randint(0, 13)))
             d.update({"N": N, "M": M, "k": rng.choice((0, 0, 0, 1, -1, 2, -2, 3, -3, -5, 5, 9)), "dtype": rng.choice(DT),
                       "chunks": _spec(rng, (max(N, M or 0),), kinds=("int", "int", "int", "int", "auto", "-1", "bytes"))})
-            if rng.random() < 0.012:
+            if rng.random() < 0.025:
                 d.update(_gen_large2d(rng, tri=False))
         elif op == "tri":
             N = rng.choice((0, 1, 2, 3, 4, 5, 6, 7))
@@ -260,7 +273,7 @@ def cases(tier, seed):
                       "chunks": _spec(rng, (N, N if M is None else M))})
             if rng.random() < 0.25:
                 d["like"] = rng.choice(("np", "da"))
-            if rng.random() < 0.012:
+            if rng.random() < 0.025:
                 d.update(_gen_large2d(rng, tri=True))
         elif op == "diag":
             if rng.random() < 0.5:
@@ -325,12 +338,12 @@ def cases(tier, seed):
                 nshape = list(A.rand_shape(rng, maxnd=3, maxlen=6))
             tshape = tuple(nshape) if nshape is not None else shape
             kinds = ("int", "tuple", "auto", "-1", "mixed", "explicit", "explicit", "irr3", "bytes", "dict") if tshape else ("tuple", "auto")
-            src = rng.choice(("dask", "dask", "dask", "dask", "numpy", "numpy", "list", "dask-nan"))
+            src = rng.choice(("dask", "dask", "dask", "dask", "numpy", "numpy", "list", "dask-nan", "dask-nan"))
             if src == "dask-nan" and (not shape or nshape is not None):
                 src = "dask"        # unknown chunk sizes need an axis to filter and the input's own shape
             if src == "list" and 0 in shape:
                 src = "numpy"       # a nested list cannot express a zero-length axis next to other axes
-            if nshape is not None and len(nshape) == 1 and rng.random() < 0.4:
+            if nshape is not None and len(nshape) == 1 and rng.random() < 0.8:
                 d["new_shape_int"] = True      # shape= given as an int
             d.update({"fn": rng.choice(("ones_like", "zeros_like", "full_like", "full_like", "empty_like")), "shape": list(shape),
                       "in": src, "adtype": rng.choice(A.NUMERIC),
@@ -362,7 +375,7 @@ def _gen_arange(rng):
             else:
                 args[0] += off
                 args[1] += off
-        mixed = rng.random() < 0.15
+        mixed = rng.random() < 0.3
         if mixed:
             # int and float arguments in one call (NumPy's result dtype follows the widest argument)
             args = [(float(a) if isinstance(a, int) else (int(a) if float(a).is_integer() else a)) if rng.random() < 0.5 else a
@@ -403,7 +416,7 @@ def _gen_arange(rng):
             out["kwform"] = True          # arange(start, stop=..., step=...)
         if rng.random() < 0.15:
             out["like"] = rng.choice(("np", "da"))
-        if rng.random() < 0.02 and not big:
+        if rng.random() < 0.035 and not big:
             # a long axis: blocks of more than 255 elements, >= 3 irregular blocks
             ln = rng.randint(300, 900)
             if len(args) == 1:
